@@ -8,6 +8,7 @@ package v1
 // C14: the preview flag of the request reaches the engine (see v2)
 //@ def qparam(r, name) = lib("(net/url.Values).Get", lib("(*net/url.URL).Query", r.URL), name)
 //@ func v1.getCommandParameters
+//@   pure
 //@   requires r != nil
 //@   ensures ret.DryRun <==> (lib("strings.ToUpper", qparam(r, "preview")) == "YES" || lib("strings.ToUpper", qparam(r, "preview")) == "TRUE" || qparam(r, "preview") == "1")
 //@   ensures ret.IdempotencyKey == lib("(net/http.Header).Get", r.Header, "Idempotency-Key")
@@ -17,3 +18,9 @@ package v1
 //@ func v1.NewRouter
 //@   assumes !roMode
 //@   property C19
+
+// C09: the request is decoded into a zero value and its reference, timestamp and metadata reach the engine unchanged
+// (the clauses are on json.Decoder.Decode and backend.Ledger.CreateTransaction, scoped to this function)
+//@ func v1.postTransaction
+//@   requires r != nil
+//@   property C09
